@@ -231,6 +231,7 @@ class Interp:
         self.depth = 0
         self.stack = []
         self.unit_checks = []
+        self.frames = []         # environments of the functions being interpreted, innermost last (an in-place store is seen by every caller holding the array)
         self.uncaught = None     # text of a library exception that escaped the function interpreted at top level
         self.track_xr = False    # keep expression trees of arithmetic/comparisons (Arr.xr) and log reductions over them
         self.xr_log = []         # (result poly, kind, tree of the reduced argument)
@@ -271,6 +272,7 @@ class Interp:
             env['__yields__'] = []          # a generator is run eagerly: its result is the list of what it yields
         self.depth += 1
         self.stack.append(fi.qual)
+        self.frames.append(env)
         try:
             sig = self.block(fi.node.body, env, fi.module)
         except PyRaise as pr:
@@ -281,6 +283,7 @@ class Interp:
         finally:
             self.depth -= 1
             self.stack.pop()
+            self.frames.pop()
         if '__tainted__' in env and (sig is None or sig[0] == 'return'):
             return env['__tainted__']
         if is_gen and (sig is None or sig[0] == 'return'):
@@ -936,6 +939,9 @@ class Interp:
         newv.conv = conv
         setv(newv)
         _replace_aliases(env, old, newv)      # an in-place store is seen through every view of the buffer
+        for fr_ in self.frames:
+            if fr_ is not env:
+                _replace_aliases(fr_, old, newv)      # ... including the callers that passed the array in
 
     # ------------------------------------------------------------------ expressions
     def expr(self, e, env, mod):
@@ -1695,7 +1701,17 @@ class Interp:
             r = self.hooks.external(self, f.name, args, kw, e, mod)
             if r is not NotImplemented:
                 return r
-            return self.libcall(f.name, args, kw, e, mod)
+            out_ = kw.pop('out', None) if isinstance(kw.get('out'), Arr) else None
+            r = self.libcall(f.name, args, kw, e, mod)
+            if out_ is not None:
+                # ufunc(..., out=a): the result is written into a's buffer, seen through every view of it
+                if isinstance(r, Arr) and tuple(r.dims) == tuple(out_.dims):
+                    r2 = Arr(out_.dims, r.poly, r.mask, out_.unit, dt=out_.dt)
+                    for fr_ in [env] + [f_ for f_ in self.frames if f_ is not env]:
+                        _replace_aliases(fr_, out_, r2)
+                    return r2
+                _replace_aliases(env, out_, Unk('array overwritten through out= by an unmodelled call', e))
+            return r
         if isinstance(f, BoundExt):
             return self.method(f.recv, f.name, args, kw, e, mod)
         if callable(f) and not isinstance(f, type):
@@ -2197,10 +2213,23 @@ class Interp:
         x, y = [self._as_arr(v) for v in args[:2]]
         if isinstance(x, Unk) or isinstance(y, Unk):
             return Unk('interp1d arguments', e)
+        kw = dict(kw)
+        axis = kw.pop('axis', -1)
+        if isinstance(axis, Arr) and axis.ndim == 0 and axis.poly.is_const():
+            axis = int(axis.poly.const_value())
+        if not isinstance(axis, int) or not -y.ndim <= axis < max(y.ndim, 1):
+            return Unk('interp1d axis', e)
+        axis %= y.ndim
+        if axis != y.ndim - 1:
+            # the table is interpolated along another axis than the last: the same as moving that axis last; scipy puts the query's axes where it was
+            d_ = list(y.dims)
+            y = y.with_(dims=tuple(d_[:axis] + d_[axis + 1:] + [d_[axis]]))
         if x.ndim != 1 or y.ndim < 1 or y.dims[-1] != x.dims[0]:
-            raise LabelClash('interp1d abscissa axis %s vs last axis of values %s' % (x.dims, y.dims))
+            raise LabelClash('interp1d abscissa axis %s vs interpolated axis of values %s' % (x.dims, y.dims))
         opts = tuple(sorted((k, repr(v) if not isinstance(v, Arr) else alg.show(v.poly)) for k, v in kw.items()))
-        return _Interp1d(x, y, opts)
+        r_ = _Interp1d(x, y, opts)
+        r_.axis = axis
+        return r_
 
     def _int(self, x, node):
         if _is_pynum(x):
@@ -2400,7 +2429,9 @@ class _Interp1d:
                 qs = alg.relabel(qs, d_, d_ + "'")
                 qdims[k_] = d_ + "'"
         extra = [C('%s=%s' % kv) for kv in self.opts]
-        dims = tuple(self.y.dims[:-1]) + tuple(qdims)
+        lead = list(self.y.dims[:-1])
+        ax_ = getattr(self, 'axis', len(lead))
+        dims = tuple(lead[:ax_]) + tuple(qdims) + tuple(lead[ax_:])
         ys = _strip_unit(self.y) if self.y.unit is not None else self.y.poly
         return Arr(dims, _linear_fn('lininterp', qs, lab, xs, ys, extra), unit=num(1))
 
